@@ -188,6 +188,11 @@ func (v *VServer) Quiesce() (alive bool, state string) {
 	}
 }
 
+// IdleNow: queues empty and the loop parked in its select at this instant.
+func (v *VServer) IdleNow() bool {
+	return len(v.S.rcvCh) == 0 && len(v.S.srCh) == 0 && len(v.S.trToCh) == 0 && v.loopState() == "select"
+}
+
 func (v *VServer) Fatal() bool { return vFatal.Load() != v.fatal0 }
 
 // InjectPacket delivers one datagram to the loop exactly as the receiver goroutine does.
